@@ -770,6 +770,8 @@ var iterScripts = map[string][]string{
 	"db_rseek": {"c a=1", "c b=2", "c k=3", "scan"},
 	// pending writes on prefix-related keys
 	"pending_prefix": {"c a=1 ab=2", "hold a=5 a\x00=6 a\xff=7 ab=8", "scan"},
+	// equal internal keys in two tables of one ingest buffer (inherited finding C01-F2)
+	"dup_copies": {"c k=1", "rot", "fl", "c a=2", "v k 1 9", "rot", "fl", "move", "scan"},
 	// a committed empty value, read from a memtable and from a table
 	"empty_value": {"c a=~ b=1", "scan", "rot", "fl", "scan"},
 	// expiry
@@ -896,7 +898,7 @@ func runIter(c *corr.Ctx) error {
 		return nil
 	}
 	nDB, nTxn := 6, 8
-	for _, name := range []string{"tombstone", "imm_tie", "reverse_versions", "db_cf", "db_plain", "db_rseek", "pending_prefix", "expired", "empty_value"} {
+	for _, name := range []string{"tombstone", "imm_tie", "reverse_versions", "db_cf", "db_plain", "db_rseek", "pending_prefix", "expired", "empty_value", "dup_copies"} {
 		runEpisode(c, episode{Seed: 7, Script: name, NDB: nDB, NTxn: nTxn})
 	}
 	n := c.Scale(8, 300)
